@@ -451,8 +451,12 @@ func (cl *c17Cluster) take(n int) []job {
 func (cl *c17Cluster) deliver(jobs []job, permIdx int, trace *[]string, who int) {
 	for _, i := range c17Perm(len(jobs), permIdx) {
 		j := jobs[i]
-		r, err := j.mapFn(j.shard)
-		j.resultChan <- mapResponse{result: r, err: err}
+		// the REAL pool worker runs the job (so whatever it puts into the response — today result and
+		// error — is what mapperLocal receives); one private work channel per job keeps the order
+		one := make(chan job, 1)
+		one <- j
+		close(one)
+		worker(one)
 		atomic.AddInt64(&cl.transitions, 1)
 		if trace != nil {
 			*trace = append(*trace, fmt.Sprintf("n%d:shard%d", who, j.shard))
